@@ -6,6 +6,7 @@ must be reset unconditionally at the per-file entry, be a memo keyed by all its 
 import ast
 
 from nvsa import effects, j2front, pyfront, reach
+from nvsa.j2front import xs
 from nvsa.report import AnalysisError
 
 GEN_MOD = "nunavut.jinja"
@@ -508,6 +509,56 @@ def _compile_order(ctx, px, R, foldable):
     ctx.floor(R + ":compile-sites", n, 2)
 
 
+RUN_CONSTANT_ROOTS = {"nunavut", "options", "ln"}
+
+
+def rule_folded_load(ctx, px, ts, R="R-C10-RENDER-TIME"):
+    """While a counter filter of a language can be constant-folded, its constant uses are numbered when the template *file* that
+    contains them is compiled, i.e. the first time the file is loaded in the process, continuing from whatever was drawn before.
+    That numbering is the same whichever type happens to be generated first only if every such file is loaded at a point all types
+    reach alike: its include / import sits at template top level or under conditions over run constants (nunavut.*, options.*,
+    language queries) - never under a test of the type being generated, in a loop or inside a macro.  (Which type comes first is the
+    iteration order of a set of namespaces: hash-seed dependent.)"""
+    N = ts.nodes
+    fold_langs = set()
+    for f in px.all_funcs:
+        if f.outer is None and f.cls is None and f.name == "filter_to_template_unique_name" and f.module.name.startswith("nunavut.lang."):
+            decos = [d.split("(")[0].split(".")[-1] for d in f.decorators]
+            if not any(d in ("template_volatile_filter", "template_context_filter", "template_environment_filter", "template_eval_context_filter") for d in decos):
+                fold_langs.add(f.module.name.split(".")[2])
+    n = 0
+    for lang in sorted(fold_langs):
+        tl = ts.of_lang(lang, "templates")
+        users = [t for t in tl if any(isinstance(x, N.Filter) and "unique_name" in x.name and isinstance(x.node, N.Const) for x in t.ast.find_all(N.Filter))]
+        byname = {t.name: t for t in tl}
+        # every template through which a user is reached
+        need = {t.name for t in users}
+        for u in users:
+            for t in tl:
+                for node, stack in j2front.walk(t.ast):
+                    if isinstance(node, (N.Include, N.Import, N.FromImport)) and isinstance(node.template, N.Const) and node.template.value == u.name:
+                        n += 1
+                        bad = []
+                        for g in stack:
+                            if g.kind in ("for", "macro"):
+                                bad.append(g.kind)
+                            elif g.kind in ("if", "condexpr"):
+                                for e_, _p in j2front.conj_terms(g.node, g.pol):
+                                    roots = {x.name for x in [e_] + list(e_.find_all(N.Name)) if isinstance(x, N.Name)}
+                                    calls = {x.node.name for x in [e_] + list(e_.find_all(N.Call)) if isinstance(x, N.Call) and isinstance(x.node, N.Name)}
+                                    roots -= {c for c in calls if c.startswith("uses_")}
+                                    if not roots <= RUN_CONSTANT_ROOTS:
+                                        bad.append(xs(e_))
+                        ok = not bad
+                        ctx.ob(R, t.rel, f"{lang}: `{u.name}` (constant unique-name draws, folded when the file is compiled) is loaded independently of the type "
+                               f"being generated @ {j2front.construct_path(stack)}", ok,
+                               "" if ok else f"loaded under {bad}: the file is compiled - and its names numbered - during the first file that reaches this point, after "
+                               "whatever that file drew before; which type that is depends on the (hash-ordered) generation order, so the numbering of every header changes "
+                               "with PYTHONHASHSEED", getattr(node, "lineno", None))
+    if fold_langs:
+        ctx.floor(R + ":folded-loads", n, 2)
+
+
 def cached_property_per_instance(px):
     """nunavut._utilities.cached_property memoises per *instance*: __get__ keeps the value in the instance (its __dict__ / setattr on it)
     and writes nothing to the descriptor, which is one object per class and shared by every instance"""
@@ -754,5 +805,6 @@ def run(ctx):
     ts = j2front.TemplateSet(ctx.root)
     rule_state(ctx, px)
     rule_render_time(ctx, px)
+    rule_folded_load(ctx, px, ts)
     rule_memo(ctx, px)
     rule_fresh_ctx(ctx, px, ts)
